@@ -304,9 +304,5 @@ pub mod unstable_net_report {
     pub use crate::net_report::{Probe, RelayLatencies, Report as NetReport};
 }
 
-/// Verification hooks for the net report aggregation and history (`--cfg iroh_verif` only).
-#[cfg(all(iroh_verif, not(wasm_browser), with_crypto_provider))]
-pub use net_report::verif_hooks as verif_net_report;
-
 #[cfg(any(test, feature = "test-utils"))]
 pub mod test_utils;
